@@ -42,6 +42,7 @@ type RunConfig struct {
 	TimeoutMs       int
 	FeasTimeoutMs   int
 	OneShotMs       int
+	FeasOneShotMs   int
 	FallbackSolvers []SolverKind
 	PathTimeoutS    int
 	Solver          SolverKind
@@ -236,7 +237,7 @@ func newExec(prog *Program, cfg *RunConfig, push func(*WorkItem)) *Exec {
 	e := &Exec{
 		prog: prog, tc: NewTermCtx(), cfg: cfg,
 		layouts: map[types.Type]*layout{}, consts: map[*ssa.Const]Value{}, globals: map[*ssa.Global]*Obj{},
-		inited: map[*ssa.Package]bool{}, initDone: map[*ssa.Package]bool{}, initRunning: map[*ssa.Package]bool{}, funcs: map[*ssa.Function]*int{}, intrUsed: map[string]int{},
+		inited: map[*ssa.Package]bool{}, initDone: map[*ssa.Package]bool{}, initRunning: map[*ssa.Package]bool{}, funcs: map[*ssa.Function]*int{}, intrUsed: map[string]int{}, portfolioWins: map[string]int{},
 		pushWork: push,
 	}
 	e.solver = NewSolver(cfg.Solver, cfg.TimeoutMs)
@@ -386,6 +387,9 @@ func runHarness(cfg *RunConfig) (*RunResult, error) {
 		for k, v := range e.intrUsed {
 			res.Intrinsics[k] += v
 		}
+		for k, v := range e.portfolioWins {
+			res.Intrinsics["portfolio fall-back decided by "+k] += v
+		}
 		st := e.solver.Stats
 		res.Queries += st.Queries
 		res.Sat += st.Sat
@@ -467,8 +471,8 @@ func (p paramFlags) Set(s string) error {
 func defaultConfig() *RunConfig {
 	return &RunConfig{
 		RepoDir: "/repo", VerifDir: "/verif", Params: map[string]int{}, Env: map[string]string{},
-		Workers: 16, Budget: 5_000_000, MaxPaths: 2_000_000, TimeoutMs: 10_000, FeasTimeoutMs: 2_000, OneShotMs: 60_000,
-		FallbackSolvers: []SolverKind{Z3New, Z3}, PathTimeoutS: 900, Solver: Z3New, Samples: 5, WallLimitS: 3600,
+		Workers: 16, Budget: 5_000_000, MaxPaths: 2_000_000, TimeoutMs: 10_000, FeasTimeoutMs: 2_000, OneShotMs: 60_000, FeasOneShotMs: 20_000,
+		FallbackSolvers: []SolverKind{Z3New, Z3, CVC5}, PathTimeoutS: 900, Solver: Z3New, Samples: 5, WallLimitS: 3600,
 	}
 }
 
